@@ -30,6 +30,8 @@ PYTYPES = {'int': int, 'float': float, 'dec': Decimal, 'str': str, 'bool': bool}
 CHECKS = {'int': lambda v: v != 1, 'float': lambda v: v != 1, 'dec': lambda v: v != 1,
           'str': lambda v: v != 'b', 'bool': lambda v: v is True}
 TRI = {'true': True, 'false': False}
+# sql_default literals per type (any valid literal of the column type will do: the property is about validation)
+SQL_DEFAULTS = {'int': '7', 'float': '7.5', 'dec': '7.25', 'str': "'dflt'", 'bool': '1'}
 ENTRIES = ('ctor', 'assign', 'set', 'get', 'select')
 
 
@@ -88,6 +90,10 @@ def decl_src(d):
         args.append('autostrip=%s' % TRI[d['strip']])
     if d['check']:
         args.append('py_check=<%s>' % {'str': "v != 'b'", 'bool': 'v is True'}.get(d['type'], 'v != 1'))
+    if d['supplied'] == 'sql_default':
+        args.append('sql_default=%r' % SQL_DEFAULTS[d['type']])
+    elif d['supplied'] != 'absent':
+        args.append('%s=True' % d['supplied'])
     return '%s(%s)' % (d['kind'], ', '.join(args))
 
 
@@ -108,6 +114,10 @@ def options_of(d):
         kw['autostrip'] = TRI[d['strip']]
     if d['check']:
         kw['py_check'] = CHECKS[d['type']]
+    if d['supplied'] == 'sql_default':
+        kw['sql_default'] = SQL_DEFAULTS[d['type']]
+    elif d['supplied'] != 'absent':
+        kw[d['supplied']] = True
     return kw
 
 
@@ -157,6 +167,10 @@ def run_case(T, d, case, base):
     exp_acc = case['acc']
     norm = case['norm']
     out = {}
+    # None accepted for an attribute whose value the database supplies (sql_default / volatile / auto): the stored
+    # value is then not None. Nothing is flushed (whether the database really can supply one is not the property's business)
+    # and the lookups only have to accept the value.
+    db_supplies = v is None and exp_acc and d['supplied'] != 'absent'
 
     # -- constructor, then lookups ------------------------------------------------------------------
     with db_session:
@@ -169,30 +183,32 @@ def run_case(T, d, case, base):
             else:
                 out['ctor'] = Outcome(True, None, holds(obj.a, norm), repr(obj.a))
             flushed = False
-            if obj is not None and exp_acc:
+            if obj is not None and exp_acc and not db_supplies:
                 try:
                     core.flush()
                     flushed = True
                 except Exception as e:
                     out['ctor'] = Outcome(False, 'flush:' + type(e).__name__)
-            if exp_acc and not flushed:
+            if exp_acc and not flushed and not db_supplies:
                 pass            # the value could not even be stored: the lookups have nothing to find
             else:
-                if obj is not None and not exp_acc:
-                    core.rollback()     # a wrongly accepted object must not be found by the lookups below
+                if obj is not None and (not exp_acc or db_supplies):
+                    # a wrongly accepted object must not be found by the lookups below; an object waiting for a
+                    # database-supplied value must not be flushed by them
+                    core.rollback()
                     obj = None
                 try:
                     got = T.get(a=v)
                 except Exception as e:
                     out['get'] = Outcome(False, type(e).__name__)
                 else:
-                    out['get'] = Outcome(True, None, got is obj if exp_acc else True, repr(got))
+                    out['get'] = Outcome(True, None, got is obj if (exp_acc and not db_supplies) else True, repr(got))
                 try:
                     got = T.select(a=v)[:]
                 except Exception as e:
                     out['select'] = Outcome(False, type(e).__name__)
                 else:
-                    out['select'] = Outcome(True, None, (len(got) == 1 and got[0] is obj) if exp_acc else True, repr(got))
+                    out['select'] = Outcome(True, None, (len(got) == 1 and got[0] is obj) if (exp_acc and not db_supplies) else True, repr(got))
         finally:
             core.rollback()
 
@@ -201,6 +217,8 @@ def run_case(T, d, case, base):
         try:
             # primary keys cannot change: an accepted value is re-assigned to the object that has it
             start = case['v'] if (is_pk and exp_acc) else base
+            if is_pk and db_supplies:
+                start = None        # a key that is still to be supplied cannot be (re)assigned
             if start is not None:
                 try:
                     obj = new_obj(T, is_pk, to_py(start), 1)
